@@ -97,3 +97,17 @@ claim(
     "Trusted: call resolution of the program model (calls it cannot resolve inside the reachable set are listed in evidence; they are builtins / third-party calls on values that are not the datastore), C01's trusted base. A vanished must-reach / must-write anchor is exit 2, so the zero-expected rule cannot pass vacuously.",
     "computed writer set ∩ call-graph reachability (type-resolved callees, registry and decorator dispatch) + points-to OWN-OUT + reaching-definition check of the window arguments",
 )
+claim(
+    "C13",
+    "other",
+    "Decided for all inputs: every store to an Event's timestamp/duration key anywhere in the packages goes through the property setters (who-may-write, with a positive fixture) and __init__ assigns all four fields through the properties on every path; the timestamp setter's value passes through iso8601 parsing (strings), a floor-to-1000 microsecond idiom on every path, UTC attachment exactly for naive values, and astimezone(UTC); the duration setter is a total type dispatch (timedelta as is, Real as seconds, else TypeError); to_json_dict, Event.__init__'s keywords, the published schema and __eq__ agree on keys and encodings.",
+    "Not decided: microsecond-exact float round trip of durations, the 10^6 microsecond values, the year range, iso8601's parsing of every offset.",
+    "who-may-write scan over the parsed program; CFG post-dominance of the normalisation steps; integer-idiom canonicalisation; path summaries of the type dispatch; writer/reader key agreement incl. the JSON schema file",
+)
+claim(
+    "C20",
+    "proof",
+    "'Never alters an existing user file' decided on load_config_toml's CFG: every file-writing construct is reachable only through the false edge of the existence test on the same, never re-bound path, and no reachable callee writes files. The overlay law of _merge decided path by path on its loop body (user-only key copied, two tables merged recursively in the same order, leaf overridden or left when equal, nothing deleted, first argument returned) plus the argument order (defaults, user) at the call site and the returned value. The first-run file is the commented-out defaults and the user document is empty on that branch.",
+    "Trusted: tomlkit.parse returns dict-like containers; os.path.isfile/open semantics. TOML semantics of multi-line values are outside the property (one-line values) and not decided.",
+    "CFG edge-filtered reachability (write only under not-exists), loop-body path enumeration with constant propagation, call-graph closure for file writers",
+)
